@@ -6,6 +6,7 @@ import (
 	"encoding/base64"
 	"errors"
 	"fmt"
+	"strings"
 	"testing"
 
 	"github.com/tinode/chat/server/auth"
@@ -42,6 +43,7 @@ type c11World struct {
 	obs     *vfClient // observer attached to grp as ok2
 	emailOn bool
 	n       int
+	nacc    int
 }
 
 func b64(s string) string { return base64.StdEncoding.EncodeToString([]byte(s)) }
@@ -97,6 +99,36 @@ func c11Setup(e *vfEnv, r *vfkit.R, emailOn bool) *c11World {
 }
 
 var errC11Injected = errors.New("vf injected credential read failure")
+
+// c11Ver: independent reading of a version string "[v]major.minor[.patch][-suffix]" as a comparable key
+// (zero-padded), "" when it has no major.minor.
+func c11Ver(v string) string {
+	v = strings.TrimPrefix(v, "v")
+	num := func(s string) (int, bool) {
+		n, any := 0, false
+		for _, ch := range s {
+			if ch < '0' || ch > '9' {
+				break
+			}
+			n, any = n*10+int(ch-'0'), true
+		}
+		return n, any
+	}
+	parts := strings.SplitN(v, ".", 3)
+	if len(parts) < 2 {
+		return ""
+	}
+	ma, ok1 := num(parts[0])
+	mi, ok2 := num(parts[1])
+	if !ok1 || !ok2 {
+		return ""
+	}
+	pa := 0
+	if len(parts) == 3 {
+		pa, _ = num(parts[2])
+	}
+	return fmt.Sprintf("%04d.%04d.%05d", ma, mi, pa)
+}
 
 type c11State struct {
 	ver bool
@@ -202,6 +234,8 @@ func (w *c11World) connection(idx int, rng interface{ Intn(int) int }) {
 				k = 0
 			case i == 1:
 				k, forceVariant = 5, "good"
+			case i == 2:
+				k = 10 // an authenticated session asks for a new account "with login"
 			case !st.uid.IsZero() && st.lvl != auth.LevelRoot && rng.Intn(3) != 0:
 				obo = st.uid.UserId()
 				extra = map[string]any{"obo": obo}
@@ -229,7 +263,7 @@ func (w *c11World) connection(idx int, rng interface{ Intn(int) int }) {
 		oboDenied := obo != "" && st.lvl != auth.LevelRoot
 		switch {
 		case k < 4: // hi
-			vers := []string{"0.22", "0.22", "0.15", "abc", "0.21", ""}
+			vers := []string{"0.22", "0.22", "0.15", "abc", "0.21", "", "0.22.1", "0.22.7", "v0.22.200-rc1", "0.22.0", "0.21.3"}
 			v := vers[rng.Intn(len(vers))]
 			if (selfObo || idx%5 == 2 || (w.emailOn && (idx%5 == 3 || idx%5 == 1))) && i == 0 {
 				v = "0.22"
@@ -240,17 +274,17 @@ func (w *c11World) connection(idx int, rng interface{ Intn(int) int }) {
 			switch {
 			case oboDenied:
 				expectErr("obo-non-root", f, 403)
-			case !st.ver && v == "0.22", !st.ver && v == "0.21":
+			case !st.ver && c11Ver(v) != "" && c11Ver(v)[:9] >= "0000.0019": // the oldest supported protocol is 0.19
 				r.Hit("handshake_ok")
 				if f == nil || f.code() >= 300 {
 					r.Violation("handshake-refused", "valid first {hi} refused: "+frameStr(f), wit(nil))
 				} else {
 					st.ver = true
-					st.who = v
+					st.who = c11Ver(v)
 				}
 			case !st.ver:
 				expectErr("bad-handshake", f, 0)
-			case st.ver && (v == "" || v == st.who):
+			case st.ver && (v == "" || c11Ver(v) == st.who):
 				if f == nil || f.code() >= 300 {
 					r.Violation("repeated-hi-refused", "repeated {hi} with the same version refused: "+frameStr(f), wit(nil))
 				}
@@ -357,6 +391,30 @@ func (w *c11World) connection(idx int, rng interface{ Intn(int) int }) {
 				r.Hit("login_nologin_token")
 			default:
 				expectErr("bad-login-"+v, f, 0)
+			}
+		case k < 12 && (rng.Intn(2) == 0 || (selfObo && i == 2)): // account creation with immediate login
+			w.nacc++
+			login := fmt.Sprintf("c11new%d%d", r.Batch(), w.nacc)
+			body := map[string]any{"user": "new", "scheme": "basic", "secret": b64(login + ":new-password-1"), "login": true,
+				"desc": map[string]any{"public": map[string]any{"fn": login}}}
+			id, ctrls := do("acc", body, extra)
+			f := replyFor(id, ctrls)
+			note("acc new login=true obo=%s -> %s", obo, codeStr(f))
+			switch {
+			case oboDenied:
+				expectErr("obo-non-root", f, 403)
+			case !st.ver:
+				expectErr("request-before-hi", f, 0)
+			case !st.uid.IsZero():
+				// a session logs in at most once: creating an account "with login" must not re-authenticate it
+				expectErr("second-login-via-acc", f, 0)
+			default:
+				r.Hit("acc_new_with_login")
+				if f != nil && f.code() >= 200 && f.code() < 300 {
+					if us, _ := f.params()["user"].(string); us != "" {
+						st.uid, st.lvl = types.ParseUserId(us), auth.LevelAuth
+					}
+				}
 			}
 		case k < 12: // acc with unknown scheme / temp scheme
 			body := map[string]any{"user": "new", "scheme": "nosuchscheme", "secret": b64("a:b")}
